@@ -331,3 +331,92 @@ Proof.
   { apply fixed_trusted_spec. exists t, p. auto. }
   cbn [negb]. unfold parse_forwarded_client_ip. reflexivity.
 Qed.
+
+(* ---- end to end: settings layer + authorizer ---- *)
+Definition effective_entries (s : sources) : list bytes :=
+  match env_entries s with [] => cli_entries s | l => l end.
+
+Lemma merged_cidrs_fixed s : merged_cidrs true s = effective_entries s.
+Proof.
+  unfold merged_cidrs, effective_entries, env_entries.
+  destruct (env_list s) as [[|e l]|]; reflexivity.
+Qed.
+
+Lemma merged_cidrs_asis s :
+  cli_entries s = [] \/ env_entries s <> [] -> merged_cidrs false s = effective_entries s.
+Proof.
+  unfold merged_cidrs, effective_entries. intros [H|H].
+  - rewrite H. destruct (env_entries s); reflexivity.
+  - destruct (env_entries s); [contradiction | reflexivity].
+Qed.
+
+Definition e2e_full_stmt (mfix : bool) : Prop :=
+  forall (pip : bytes -> option N) (pcidr : bytes -> option cidr) s q,
+  e2e_resolve pip pcidr mfix s q <> (Peer, default_scheme q) ->
+  merged_trust s = true /\
+  exists t p, q_remote q = Some t /\ pip t = Some p /\
+    ((cli_entries s = [] /\ env_entries s = []) \/
+     exists e c, In e (match env_entries s with [] => cli_entries s | l => l end) /\
+                 pcidr e = Some c /\ contains c p = true).
+
+Lemma e2e_from_effective (pip : bytes -> option N) (pcidr : bytes -> option cidr) mfix s q :
+  merged_cidrs mfix s = effective_entries s ->
+  e2e_resolve pip pcidr mfix s q <> (Peer, default_scheme q) ->
+  merged_trust s = true /\
+  exists t p, q_remote q = Some t /\ pip t = Some p /\
+    ((cli_entries s = [] /\ env_entries s = []) \/
+     exists e c, In e (effective_entries s) /\ pcidr e = Some c /\ contains c p = true).
+Proof.
+  intros Heff H. unfold e2e_resolve in H. rewrite Heff in H.
+  destruct (fixed_forwarded_only_if_trusted_stmt pip _ _ _ H) as (Ht & t & p & Hr & Hp & Hc).
+  split; [exact Ht|]. exists t, p. split; [exact Hr|]. split; [exact Hp|].
+  destruct Hc as [Hnil|(c & Hin & Hc)].
+  - left. apply map_eq_nil in Hnil. unfold effective_entries in Hnil.
+    destruct (env_entries s); [split; [exact Hnil | reflexivity] | discriminate].
+  - right. apply in_map_iff in Hin. destruct Hin as (e & He & Hin). exists e, c. auto.
+Qed.
+
+Lemma e2e_fixed_stmt : e2e_full_stmt true.
+Proof.
+  intros pip pcidr s q H. apply (e2e_from_effective pip pcidr true s q (merged_cidrs_fixed s) H).
+Qed.
+
+Lemma e2e_partial_stmt : forall (pip : bytes -> option N) (pcidr : bytes -> option cidr) s q,
+  cli_entries s = [] \/ env_entries s <> [] ->
+  e2e_resolve pip pcidr false s q <> (Peer, default_scheme q) ->
+  merged_trust s = true /\
+  exists t p, q_remote q = Some t /\ pip t = Some p /\
+    ((cli_entries s = [] /\ env_entries s = []) \/
+     exists e c, In e (match env_entries s with [] => cli_entries s | l => l end) /\
+                 pcidr e = Some c /\ contains c p = true).
+Proof.
+  intros pip pcidr s q Hs H. apply (e2e_from_effective pip pcidr false s q (merged_cidrs_asis s Hs) H).
+Qed.
+
+(* what the code does: the command line's list never reaches the authorizer *)
+Lemma e2e_asis_ignores_cli_stmt : forall (pip : bytes -> option N) (pcidr : bytes -> option cidr) ct cc cc' et ec q,
+  e2e_resolve pip pcidr false (mkSources ct cc et ec) q = e2e_resolve pip pcidr false (mkSources ct cc' et ec) q.
+Proof. reflexivity. Qed.
+
+(* the refuting configuration: -trustForwardedHeaders -trustedProxyCIDRs=10.0.0.0/8, environment unset *)
+Definition wit_pcidr (t : bytes) : option cidr :=
+  if bytes_eqb t B"10.0.0.0/8" then Some (mkCidr true 281470849515520 8) else None.
+Definition wit_sources : sources := mkSources (Some true) (Some B"10.0.0.0/8") [] [].
+
+Lemma e2e_witness_stmt :
+  e2e_resolve wit_pip wit_pcidr false wit_sources wit_req = (Fwd 281470849515521, B"https") /\
+  cli_entries wit_sources = [B"10.0.0.0/8"] /\ env_entries wit_sources = [] /\
+  contains (mkCidr true 281470849515520 8) 281474087547145 = false /\
+  e2e_resolve wit_pip wit_pcidr true wit_sources wit_req = (Peer, B"http").
+Proof. vm_compute. repeat split. Qed.
+
+Lemma e2e_refuted_stmt : ~ e2e_full_stmt false.
+Proof.
+  intros H. destruct e2e_witness_stmt as (W & _ & _ & Wc & _).
+  destruct (H wit_pip wit_pcidr wit_sources wit_req) as (_ & t & p & Hr & Hp & [[Hc _]|(e & c & Hin & He & Hc)]).
+  - rewrite W. discriminate.
+  - vm_compute in Hc. discriminate.
+  - vm_compute in Hr. inversion Hr; subst t. vm_compute in Hp. inversion Hp; subst p.
+    vm_compute in Hin. destruct Hin as [<-|[]]. vm_compute in He. inversion He; subst c.
+    rewrite Wc in Hc. discriminate.
+Qed.
